@@ -16,6 +16,7 @@ pub mod c09;
 pub mod c10;
 pub mod c11;
 pub mod c12;
+pub mod c13;
 pub mod c14;
 pub mod c15;
 pub mod c16;
@@ -24,7 +25,7 @@ pub mod c18;
 pub mod tokens;
 
 pub fn all() -> Vec<&'static dyn Prop> {
-    vec![&c01::C01, &c02::C02, &c03::C03, &c04::C04, &c05::C05, &c06::C06, &c07::C07, &c08::C08, &c09::C09, &c10::C10, &c11::C11, &c12::C12, &c14::C14, &c15::C15, &c16::C16, &c17::C17, &c18::C18]
+    vec![&c01::C01, &c02::C02, &c03::C03, &c04::C04, &c05::C05, &c06::C06, &c07::C07, &c08::C08, &c09::C09, &c10::C10, &c11::C11, &c12::C12, &c13::C13, &c14::C14, &c15::C15, &c16::C16, &c17::C17, &c18::C18]
 }
 
 pub fn find(id: &str) -> Option<&'static dyn Prop> {
@@ -77,6 +78,9 @@ pub fn replay(id: &str, file: &str) -> i32 {
     }
 }
 
-pub fn child(_args: &[String]) -> i32 {
+pub fn child(args: &[String]) -> i32 {
+    if args.len() >= 3 && (args[0] == "sched" || args[0] == "seq") {
+        return c13::child_main(args);
+    }
     2
 }
